@@ -104,7 +104,8 @@ def build_runner(tag, race=False, pkg="./cmd/runner"):
         with open(alt, "w") as f: f.write(mod)
         shutil.copy(os.path.join(REPO, "go.sum"), alt[:-4] + ".sum")
         cmd += ["-modfile", alt]
-        rc, log = sh(cmd + ["-o", out, pkg], cwd=HARNESS, env=GOENV, timeout=1800)
+        with Lock("go"):
+            rc, log = sh(cmd + ["-o", out, pkg], cwd=HARNESS, env=GOENV, timeout=1800)
     else:
         with Lock("go"):
             shutil.copy(os.path.join(REPO, "go.sum"), os.path.join(HARNESS, "go.sum"))
